@@ -1,1 +1,6 @@
 import Driver.Loop
+import Driver.Enc
+import Driver.Arr
+import Driver.Wire
+import Driver.Idx
+import Driver.Trie
